@@ -678,8 +678,8 @@ class SetUnion(Set):
             has the same subsets as this set, ``False`` otherwise.
         """
         return (type(self) == type(other) and
-                all(set_ in other for set_ in self) and
-                all(set_ in self for set_ in other))
+                all(set_ in other.sets for set_ in self.sets) and
+                all(set_ in self.sets for set_ in other.sets))
 
     def __hash__(self):
         """Return ``hash(self)``."""
@@ -801,8 +801,8 @@ class SetIntersection(Set):
             has the same subsets as this set, ``False`` otherwise.
         """
         return (type(self) == type(other) and
-                all(set_ in other for set_ in self) and
-                all(set_ in self for set_ in other))
+                all(set_ in other.sets for set_ in self.sets) and
+                all(set_ in self.sets for set_ in other.sets))
 
     def __hash__(self):
         """Return ``hash(self)``."""
